@@ -649,11 +649,30 @@ def _exact(run):
 
 # ----------------------------------------------------------------- C05
 
+def _never_ends(hist, sr, prop, t_trig, label, out):
+    """the trigger happened, the run of this scheduler never ended, and the
+    whole simulation got stuck: the abort itself hangs"""
+    if sr.over is None and not returned(hist.run):
+        out.append(Violation(
+            prop, 'run-never-ends-after-' + label.replace(' ', '-'),
+            _site(sr),
+            "{}: {} at t={} but the run never ended ({}: {})".format(
+                sr.nid, label, t_trig, hist.run.outcome, hist.run.value)))
+        return True
+    return False
+
+
 def c05(hist, stats=None):
     out = []
     run = hist.run
     for sid in hist.sched_ids():
         sr = hist.sr(sid)
+        if sr.crit is not None and sr.begin is not None and not sr.degenerate \
+                and (sr.exp_t is None or sr.crit[1] < sr.exp_t) \
+                and (sr.fin is None or sr.crit[1] <= sr.fin[1]):
+            if _never_ends(hist, sr, 'C05', sr.crit[1], 'critical failure',
+                           out):
+                continue
         if sr.verdict != 'fail' or sr.cause != 'critical' or sr.crit is None:
             continue
         if sr.exp_t is not None and sr.exp_t <= sr.crit[1]:
@@ -706,6 +725,11 @@ def c08(hist, stats=None):
         sr = hist.sr(sid)
         if sr.timeout is None or sr.begin is None:
             continue
+        if sr.exp_t not in (None, INF) and hist.instants[-1] > sr.exp_t \
+                and (sr.crit is None or sr.crit[1] > sr.exp_t) \
+                and (sr.fin is None or sr.fin[1] > sr.exp_t):
+            if _never_ends(hist, sr, 'C08', sr.exp_t, 'expiry', out):
+                continue
         if sr.verdict == 'fail' and sr.cause == 'timeout' \
                 and sr.exp_t not in (None, INF):
             if sr.crit is not None and sr.crit[1] <= sr.exp_t:
@@ -737,6 +761,12 @@ def c09(hist, stats=None):
     run = hist.run
     for sid in hist.sched_ids():
         sr = hist.sr(sid)
+        if sr.fin is not None and sr.mh and not sr.degenerate \
+                and (sr.crit is None or sr.crit[1] > sr.fin[1]) \
+                and (sr.exp_t is None or sr.exp_t > sr.fin[1]):
+            if _never_ends(hist, sr, 'C09', sr.fin[1], 'last completion',
+                           out):
+                continue
         if sr.verdict != 'success' or sr.fin is None or not sr.mh \
                 or sr.degenerate:
             continue
